@@ -1,0 +1,32 @@
+//go:build verif
+
+package message
+
+// VerifPair is one stored (ssid, subscriber) pair of the trie.
+type VerifPair struct {
+	Ssid Ssid
+	ID   string
+	Type SubscriberType
+}
+
+// VerifDump returns the number of live trie nodes (root included) and every stored
+// (ssid, subscriber) pair, taken under the trie's own read lock. Read-only; used by the
+// runtime monitors under /verif.
+func (t *Trie) VerifDump() (nodes int, pairs []VerifPair) {
+	t.RLock()
+	defer t.RUnlock()
+	var walk func(n *node, path Ssid)
+	walk = func(n *node, path Ssid) {
+		nodes++
+		for _, s := range n.subs {
+			p := make(Ssid, len(path))
+			copy(p, path)
+			pairs = append(pairs, VerifPair{Ssid: p, ID: s.ID(), Type: s.Type()})
+		}
+		for w, c := range n.children {
+			walk(c, append(path[:len(path):len(path)], w))
+		}
+	}
+	walk(t.root, nil)
+	return
+}
